@@ -85,6 +85,10 @@ func replay(prop, file string) int {
 		f, ok = checks.ReplayFaultHist, true
 	}
 
+	if doc.Replay["op"] == "boundmethod" {
+		f, ok = checks.ReplayBoundMethod, true
+	}
+
 	if !ok {
 		fmt.Fprintln(os.Stderr, "no replayer for", prop)
 		return 2
